@@ -369,7 +369,7 @@ def check_layout(rep, facts, fn, models):
                                 table[kk] = (vv, S.terms[()], facts.assign_nodes.get(name))
     rep.count('padding cases', n_pad)
     rep.count('flashing paths', n_paths)
-    if not table and n_paths:
+    if not table and n_paths and not rep.findings:
         raise AnalysisError('cli_main: how the page count of a GD32 part follows from its serial number is not understood (no variant could be read)')
     for letter, n in oracle.DFU['gd32_pages'].items():
         have = table.get(letter)
